@@ -487,6 +487,20 @@ class Ev:
                 idx = self.ev(e.slice, env, module)
                 if isinstance(idx, BV) and idx.is_const():
                     return base.items[idx.value()]
+            items = self._const_items(base) if not isinstance(e.slice, ast.Slice) else None
+            if items:
+                # lookup in a constant table with a symbolic integer key: a case split over the keys (a key outside the table
+                # raises KeyError at run time; callers guard the lookup with `in`, the split keeps the last row as default)
+                idx = self.ev(e.slice, env, module)
+                if isinstance(idx, BV) and all(isinstance(k, int) and not isinstance(k, bool) and k >= 0 for k, _ in items):
+                    if idx.is_const():
+                        for k, x in items:
+                            if k == idx.value():
+                                return x
+                        raise Unsupported("constant key missing from a constant table")
+                    alts = [(self.eq_const(idx, k), x) for k, x in items]
+                    alts[-1] = (TRUE, alts[-1][1])
+                    return self.merge(alts)
             raise Unsupported(f"subscript of {type(base).__name__}")
         if isinstance(e, (ast.DictComp, ast.GeneratorExp, ast.ListComp, ast.SetComp)) and len(e.generators) == 1 and not e.generators[0].is_async:
             rows = self._const_rows(e.generators[0], env, module)
@@ -680,6 +694,17 @@ class Ev:
                         return BoolV(TRUE if (r != neg) else FALSE)
                     return BoolV(FALSE if not neg else TRUE)
             raise Unsupported("identity comparison")
+        if isinstance(op, (ast.In, ast.NotIn)):
+            keys = self._const_keys(b)
+            if keys is not None and isinstance(a, BV):
+                c = FALSE
+                for k in keys:
+                    if isinstance(k, int) and not isinstance(k, bool) and k >= 0:
+                        c = c_or(c, self.eq_const(a, k) if not a.is_const() else (TRUE if a.value() == k else FALSE))
+                return BoolV(c if isinstance(op, ast.In) else c_not(c))
+            if keys is not None and isinstance(a, Py):
+                r = a.v in keys
+                return BoolV(TRUE if r == isinstance(op, ast.In) else FALSE)
         sym = {ast.Eq: "==", ast.NotEq: "!=", ast.Lt: "<", ast.LtE: "<=", ast.Gt: ">", ast.GtE: ">="}.get(type(op))
         if sym is None:
             raise Unsupported(f"comparison {type(op).__name__}")
@@ -721,6 +746,32 @@ class Ev:
                 # e.g. bytes prefix compared with a constant
                 raise Unsupported("comparison of a constant with bits")
         raise Unsupported(f"comparison of {type(a).__name__} and {type(b).__name__}")
+
+    def _const_keys(self, v):
+        """Python keys of a constant container value (dict / tuple / set of constants), or None."""
+        if isinstance(v, Py) and isinstance(v.v, (dict, tuple, list, set, frozenset)):
+            return list(v.v)
+        if isinstance(v, (DictV, Tup)):
+            out = []
+            for it in v.items:
+                k = it[0] if isinstance(v, DictV) else it
+                if isinstance(k, BV) and k.is_const():
+                    out.append(k.value())
+                elif isinstance(k, Py):
+                    out.append(k.v)
+                else:
+                    return None
+            return out
+        return None
+
+    def _const_items(self, v):
+        if isinstance(v, Py) and isinstance(v.v, dict):
+            return [(k, self.lift(x)) for k, x in v.v.items()]
+        if isinstance(v, DictV):
+            ks = self._const_keys(v)
+            if ks is not None:
+                return list(zip(ks, [x for _, x in v.items]))
+        return None
 
     def eq_const(self, x: BV, c: int):
         """Condition `x == c`; a single symbolic bit with zero elsewhere becomes a bit test."""
